@@ -168,6 +168,8 @@ module N :
   val to_uint : n -> uint
  end
 
+val removelast : 'a1 list -> 'a1 list
+
 val rev0 : 'a1 list -> 'a1 list
 
 val map : ('a1 -> 'a2) -> 'a1 list -> 'a2 list
@@ -654,6 +656,36 @@ val convert_slots : bool -> (string * bslot) list -> (string * bslot) list res
 val migrate : env -> state -> migmsg -> (state * resp) res
 
 val query : state -> qmsg -> qres res
+
+val unfilled : bid -> n
+
+val unspent : bid -> n
+
+val held : bid -> n
+
+val price_b : string -> bool
+
+val coin_eqb0 : coin -> coin -> bool
+
+val is_basic : aclass -> bool
+
+val ask_b : cfg -> string -> ask -> bool
+
+val fee_b : bid -> bool
+
+val hdr_b : cfg -> string -> bid -> bool
+
+val pricepart_b : cfg -> bid -> bool
+
+val bid_b : cfg -> string -> bid -> bool
+
+val nodup_b : string list -> bool
+
+val cfg_b : cfg -> bool
+
+val ver_b : state -> bool
+
+val inv_check : state -> bool
 
 val split_aux : ascii -> string -> ascii list -> string list
 
